@@ -11,6 +11,24 @@ use rayon::prelude::*;
 use serde_json::{json, Value};
 use std::sync::Mutex;
 
+/// quintant -> (segment, orientation) on every face, as the reference release has it (the per-face layout
+/// rows are part of the documented frame: a consistent change of a row keeps every round trip inside the
+/// library but moves the curve's entry corner, i.e. ids denote other cells)
+const REF_RELABEL: [[(usize, &str); 5]; 12] = [
+    [(3, "VW"), (2, "VW"), (1, "VW"), (0, "UW"), (4, "VU")],
+    [(0, "WU"), (1, "UW"), (2, "VU"), (3, "UV"), (4, "WV")],
+    [(0, "WV"), (1, "WU"), (2, "UW"), (3, "WU"), (4, "UV")],
+    [(0, "WU"), (1, "UV"), (2, "WV"), (3, "WU"), (4, "UW")],
+    [(4, "VW"), (3, "UW"), (2, "WU"), (1, "UW"), (0, "VU")],
+    [(0, "UV"), (1, "WV"), (2, "WU"), (3, "UW"), (4, "VU")],
+    [(4, "VW"), (3, "UW"), (2, "WU"), (1, "UW"), (0, "VU")],
+    [(4, "VW"), (3, "UW"), (2, "WU"), (1, "UW"), (0, "VU")],
+    [(0, "WV"), (1, "WU"), (2, "UW"), (3, "WU"), (4, "UV")],
+    [(0, "VU"), (1, "UV"), (2, "WV"), (3, "WU"), (4, "UW")],
+    [(0, "WV"), (1, "WU"), (2, "UW"), (3, "VU"), (4, "UV")],
+    [(0, "WU"), (4, "UW"), (3, "VU"), (2, "VW"), (1, "UW")],
+];
+
 fn nearest_ok(f: &rg::Frame, v: V3, face: usize) -> (bool, f64) {
     let ranked = f.ranked(v);
     let dmin = ranked[0].0;
@@ -186,6 +204,10 @@ pub fn run_c18(tier: &str) -> Report {
             match r {
                 Ok((seg, or1, q2, or2)) => {
                     segs.push(seg);
+                    let want = REF_RELABEL[(o.id as usize) % 12][q];
+                    if (seg, or1.as_str()) != want {
+                        rep.sink.push(viol("C18/relabel-table", format!("face {}: quintant {} -> (segment {}, {}), the documented layout has (segment {}, {})", o.id, q, seg, or1, want.0, want.1), case.clone()));
+                    }
                     if q2 != q {
                         rep.sink.push(viol("C18/relabel-bijection", format!("face {}: quintant {} -> segment {} -> quintant {}", o.id, q, seg, q2), case.clone()));
                     }
